@@ -13,8 +13,13 @@
      pool_join          sourcegraph/conc v0.3.0 ErrorPool.addErr on Go >= 1.20: errs = errors.Join(errs, err)
      exclude            tss/ecdsa/common/utils.go ExcludePeers
      after_failure      tss/coordinator.go Execute (Retryable()) + handleError + retry
+     timing / *_timeout tss/coordinator.go: which of the two configured durations bounds which wait -
+                        start: waitForStart(.., coordinator, c.CoordinatorTimeout); handleError's SubsetError
+                        branch: waitForStart(.., "", c.TssTimeout); watchExecution: ticker c.TssTimeout
+     timed_wait         waitForStart + handleError's watchExecution with arrival times: the ticker of
+                        waitForStart (reset by every accepted initiate message) and the watcher's ticker
      session            one whole Execute call as driven by the runner (first attempt, injected failure of the
-                        first Run, bully outcome, second attempt via C07's initiate / run_wait)            *)
+                        first Run, bully outcome, second attempt via C07's initiate / wait_step2)          *)
 From Coq Require Import List ZArith NArith Bool.
 Import ListNotations.
 From SygmaV Require Import Model.C07.
@@ -137,8 +142,6 @@ Fixpoint index_of (p : peer) (l : list peer) (i : nat) : option nat :=
 Definition opt_peer_eqb (a : option peer) (b : peer) : bool :=
   match a with Some x => N.eqb x b | None => false end.
 
-Definition not_fail (m : wmsg) : bool := match m with MFail _ => false | _ => true end.
-
 Definition runs_of (outs : list wout) : list (bool * list peer) :=
   flat_map (fun o => match o with ORun l => [(false, l)] | _ => [] end) outs.
 Definition readies_of (outs : list wout) : list peer :=
@@ -146,8 +149,60 @@ Definition readies_of (outs : list wout) : list peer :=
 Definition has_bad (outs : list wout) : bool :=
   existsb (fun o => match o with OBadStart | OAbort => true | _ => false end) outs.
 
+(* ---------------------------------------------------------------------------------------------- *)
+(* The two configured durations and which wait each of them bounds (as coded).  Times are in the
+   runner's unit (milliseconds); an arrival time is measured from the start of the wait. *)
+
+Record timing := mkTiming {
+  coord_to : N;    (* Coordinator.CoordinatorTimeout *)
+  tss_to : N       (* Coordinator.TssTimeout *)
+}.
+
+(* start(): a relayer that knows the attempt's coordinator waits for its initiate / start message *)
+Definition start_wait_timeout (tm : timing) : N := coord_to tm.
+(* handleError, SubsetError: the left-out relayer waits for the replacement attempt's start *)
+Definition left_out_wait_timeout (tm : timing) : N := tss_to tm.
+(* watchExecution: the overall bound of a session phase *)
+Definition watch_timeout (tm : timing) : N := tss_to tm.
+
+Definition is_waiting (st : wstate) : bool := match st with Waiting => true | _ => false end.
+
+(* waitForStart(c, timeout) next to handleError's watcher (told the empty id, bound [watch]), fed
+   messages with arrival times.  [deadline] = when waitForStart's ticker fires next; an accepted
+   initiate message re-arms it.  Result: what the relayer did, and whether a ticker ended the session
+   (CoordinatorError of waitForStart / "tss process timed out" of the watcher). *)
+Fixpoint timed_wait (c : option peer) (timeout watch deadline : N) (st : wstate) (msgs : list (N * wmsg))
+  : list wout * bool :=
+  match msgs with
+  | [] => ([], false)
+  | (at_, m) :: r =>
+      match st with
+      | Finished => ([], false)
+      | _ =>
+          if (watch <=? at_)%N then ([], true)
+          else if is_waiting st && (deadline <=? at_)%N then ([], true)
+          else
+            let (st', o) := wait_step2 None c st m in
+            let deadline' :=
+              match st, m with
+              | Waiting, MInitiate f => if from_ok c f then (at_ + timeout)%N else deadline
+              | _, _ => deadline
+              end in
+            let (o', late) := timed_wait c timeout watch deadline' st' r in (o ++ o', late)
+      end
+  end.
+
+(* the left-out relayer *)
+Definition left_out_wait (tm : timing) (msgs : list (N * wmsg)) : list wout * bool :=
+  timed_wait None (left_out_wait_timeout tm) (watch_timeout tm) (left_out_wait_timeout tm) Waiting msgs.
+
+(* a relayer that lost the bully election to [c2] *)
+Definition retry_start_wait (tm : timing) (c2 : peer) (msgs : list (N * wmsg)) : list wout * bool :=
+  timed_wait (Some c2) (start_wait_timeout tm) (watch_timeout tm) (start_wait_timeout tm) Waiting msgs.
+
 Section Session.
   Variable key : peer -> N.
+  Variable tm : timing.
 
   (* the bully election as far as the runner scripts it: nobody answers (None) or one earlier
      candidate announces itself after this relayer's own Select *)
@@ -165,13 +220,13 @@ Section Session.
   (* what happens after the first attempt (whose Run calls were [runs1]) failed with [e] *)
   Definition continue (cl : err -> action) (holders : list peer) (t : Z) (self : peer) (retryable : bool)
              (runs1 : list (bool * list peer)) (e : err)
-             (winner : option peer) (ready2 : list peer) (msgs2 : list wmsg) : obs :=
+             (winner : option peer) (ready2 : list peer) (msgs2 : list (N * wmsg)) : obs :=
     match after_failure_with cl retryable holders e with
     | Returned => mkObs runs1 None [] [] FOriginal
     | ReturnedDecodeErr => mkObs runs1 None [] [] FOther
     | Waited =>
-        let outs := snd (run_wait None Waiting (filter not_fail msgs2)) in
-        mkObs (runs1 ++ runs_of outs) None [] (readies_of outs) (if has_bad outs then FOther else FNil)
+        let w := left_out_wait tm msgs2 in
+        mkObs (runs1 ++ runs_of (fst w)) None [] (readies_of (fst w)) (if has_bad (fst w) || snd w then FOther else FNil)
     | Retried cands ex =>
         let c2 := bully_result self winner cands in
         if N.eqb c2 self then
@@ -179,15 +234,15 @@ Section Session.
           mkObs (runs1 ++ match ann with Some sub => [(true, sub)] | None => [] end)
                 (Some (sort_peers key cands)) (map (fun r => (r, ex)) calls) [] FNil
         else
-          let outs := snd (run_wait (Some c2) Waiting (filter not_fail msgs2)) in
-          mkObs (runs1 ++ runs_of outs) (Some (sort_peers key cands)) [] (readies_of outs)
-                (if has_bad outs then FOther else FNil)
+          let w := retry_start_wait tm c2 msgs2 in
+          mkObs (runs1 ++ runs_of (fst w)) (Some (sort_peers key cands)) [] (readies_of (fst w))
+                (if has_bad (fst w) || snd w then FOther else FNil)
     end.
 
   (* the first Run of the first attempt returns the error [e] (as seen by handleError) *)
   Definition session (cl : err -> action) (holders : list peer) (t : Z) (self : peer) (retryable : bool)
              (ready1 start1 : list peer) (e : err)
-             (winner : option peer) (ready2 : list peer) (msgs2 : list wmsg) : obs :=
+             (winner : option peer) (ready2 : list peer) (msgs2 : list (N * wmsg)) : obs :=
     let first :=
       if opt_peer_eqb (coordinator key holders) self then
         match snd (initiate key holders t [] [self] ready1) with
@@ -209,7 +264,7 @@ Section Session.
     end.
 
   Definition session_silent (cl : err -> action) (holders : list peer) (t : Z) (self : peer) (retryable : bool)
-             (winner : option peer) (ready2 : list peer) (msgs2 : list wmsg) : obs :=
+             (winner : option peer) (ready2 : list peer) (msgs2 : list (N * wmsg)) : obs :=
     match silent_error holders with
     | Some e => continue cl holders t self retryable [] e winner ready2 msgs2
     | None => mkObs [] None [] [] FNil
@@ -225,8 +280,27 @@ Definition same_set (a b : list peer) : bool :=
   forallb (fun p => memb p b) a && forallb (fun p => memb p a) b.
 
 
-(* the observation is what [a] demands *)
-Definition obs_allows (holders : list peer) (nfirst : nat) (o : obs) (a : action) : bool :=
+(* "waits for the replacement attempt's start": a well-formed start message that arrives before the
+   session's overall (TSS) timeout [watch] must be honoured - the process is run with its params.
+   Nothing is demanded once a message arrived at or after [watch], after a fail message (whether the
+   unknown coordinator's fail message may end the wait is not this property's subject) or after an
+   undecodable start message (the session ends with the decoding error). *)
+Fixpoint honoured (watch : N) (msgs : list (N * wmsg)) (runs : list (bool * list peer)) : bool :=
+  match msgs with
+  | [] => true
+  | (at_, m) :: r =>
+      if (watch <=? at_)%N then true else
+      match m with
+      | MInitiate _ => honoured watch r runs
+      | MFail _ => true
+      | MStart _ None => true
+      | MStart _ (Some l) => existsb (fun x : bool * list peer => list_peer_eqb (snd x) l) runs
+      end
+  end.
+
+(* the observation is what [a] demands ([tm], [msgs2]: the configured durations and the messages
+   offered after the failure, with arrival times) *)
+Definition obs_allows (tm : timing) (msgs2 : list (N * wmsg)) (holders : list peer) (nfirst : nat) (o : obs) (a : action) : bool :=
   let second_runs := skipn nfirst (o_runs o) in
   match a with
   | RetryExcluding ps =>
@@ -239,7 +313,10 @@ Definition obs_allows (holders : list peer) (nfirst : nat) (o : obs) (a : action
           && forallb (fun c : list peer * list peer => same_set (snd c) ps) (o_calls2 o)
       end
   | WaitForStart =>
-      match o_elected o with None => negb (N.eqb (o_final o) FOriginal) | Some _ => false end
+      match o_elected o with
+      | None => negb (N.eqb (o_final o) FOriginal) && honoured (tss_to tm) msgs2 second_runs
+      | Some _ => false
+      end
   | GiveUpDecode =>
       match o_elected o, second_runs with None, [] => negb (N.eqb (o_final o) FNil) | _, _ => false end
   | GiveUp =>
@@ -247,11 +324,11 @@ Definition obs_allows (holders : list peer) (nfirst : nat) (o : obs) (a : action
   end.
 
 (* [nfirst] = number of Run calls of the first attempt (1, or 0 when the coordinator was silent) *)
-Definition spec_ok (holders : list peer) (retryable : bool) (e : err) (nfirst : nat) (o : obs) : bool :=
-  if negb retryable then obs_allows holders nfirst o GiveUp
+Definition spec_ok (tm : timing) (msgs2 : list (N * wmsg)) (holders : list peer) (retryable : bool) (e : err) (nfirst : nat) (o : obs) : bool :=
+  if negb retryable then obs_allows tm msgs2 holders nfirst o GiveUp
   else match recognised_kinds e with
-       | [] => obs_allows holders nfirst o GiveUp
-       | ks => existsb (fun k => obs_allows holders nfirst o (action_of_kind k)) ks
+       | [] => obs_allows tm msgs2 holders nfirst o GiveUp
+       | ks => existsb (fun k => obs_allows tm msgs2 holders nfirst o (action_of_kind k)) ks
        end.
 
 Inductive proc_kind := PSigning | PKeygen | PResharing.
